@@ -473,6 +473,27 @@ func (s *Sim) genTx0() *TxSpec {
 		}
 		return t
 	default: // invalid / adversarial stream
+		if cur := s.sets[s.height]; len(cur) >= 3 && r.Intn(8) == 0 {
+			// a forged (un)staking transaction followed, in the same block, by honest staking to the same
+			// validator: the forged one must fail WITHOUT effect, also on the limits the next one is judged by
+			v, _ := s.key(cur[r.Intn(len(cur))].Addr)
+			f := s.baseTx(2, s.pick(s.all), v.Addr)
+			f.Amount = rigo(int64(1 + r.Intn(3)))
+			f.Tamper = "sig"
+			f.Note = "forged-staking-before-honest"
+			if r.Intn(2) == 0 {
+				other := s.pick(s.all)
+				f.Tamper, f.SignerLabel = "", other.Name
+				if string(other.Addr) == string(f.From) {
+					f.Tamper = "sig"
+				}
+			}
+			h1 := s.baseTx(2, s.pick(s.all), v.Addr)
+			h1.Amount = rigo(int64(1 + r.Intn(3)))
+			h1.Note = "honest-staking-after-forged"
+			s.pending = append(s.pending, h1)
+			return f
+		}
 		base := s.genValidish()
 		switch r.Intn(15) {
 		case 12: // a signature that verified for an earlier transaction of this sender, on a new transaction
